@@ -892,6 +892,11 @@ var (
 	n2 = []string{"/a", "/a/b"}
 	n3 = []string{"/a", "/a/b", "/a/b/c"}
 	ns = []string{"/a", "/a/b", "/a/c"}
+	// names whose last components carry the SAME value bytes (0x01) under different TLV types:
+	// segment (50), version (54), generic (8). They are different names.
+	nt = []string{"/a/seg=1", "/a/v=1", "/a/%01"}
+	// nested prefixes four levels deep (handler dispatch has to climb over >= 2 handler-less nodes)
+	n4 = []string{"/a", "/a/b", "/a/b/c", "/a/b/c/d"}
 )
 
 var configs = map[string]cfgT{
@@ -909,7 +914,13 @@ var configs = map[string]cfgT{
 	"digest": {names: n2, cbps: []bool{false, true}, lives: []int{10}, digs: []string{"none", "right", "wrong"}, maxInt: 3,
 		dataNames: n2, nackNames: []string{"/a"}, advNext: true},
 	// producer side: handler registration histories, longest-prefix dispatch, reply deadline
-	"handler": {prefixes: n3, inNames: []string{"/a", "/a/b", "/a/b/c", "/a/x"}, inLives: []int{10, 20}, maxIn: 2, adv10: true},
+	"handler": {prefixes: n4, inNames: []string{"/a", "/a/b", "/a/b/c", "/a/b/c/d", "/a/b/c/x", "/a/x"}, inLives: []int{10, 20}, maxIn: 2, adv10: true},
+	// component types: names equal in every component's value bytes but not in its type must not
+	// share PIT nodes (Data/Nack for one must not resolve the other) ...
+	"typed": {names: nt, cbps: []bool{false, true}, lives: []int{10}, digs: []string{"none"}, maxInt: 3,
+		dataNames: append([]string{"/a"}, nt...), nackNames: nt, advNext: true},
+	// ... nor FIB nodes (handlers attached at such prefixes must not collide)
+	"typedh": {prefixes: nt, inNames: nt, inLives: []int{10}, maxIn: 2, adv10: true},
 	// both sides at once (thorough tier)
 	"mixed": {names: n2, cbps: []bool{false, true}, lives: []int{10}, digs: []string{"none"}, maxInt: 2,
 		dataNames: n2, nackNames: n2, advNext: true, adv10: true, split: true,
@@ -942,13 +953,14 @@ func main() {
 				d int
 			}
 			// cheap configurations first: what they do not use of their share of the budget goes to the rest
-			l := []e{{"handler i=0 in=2", 8}, {"digest i=3 in=0", 7}, {"mixed i=2 in=1", 7}, {"race i=4 in=0", 8}, {"names i=4 in=0", 7}, {"siblings i=4 in=0", 7}}
+			l := []e{{"handler i=0 in=2", 8}, {"digest i=3 in=0", 7}, {"mixed i=2 in=1", 7}, {"typedh i=0 in=2", 8}, {"typed i=3 in=0", 7}, {"race i=4 in=0", 8}, {"names i=4 in=0", 7}, {"siblings i=4 in=0", 7}}
 			if th {
 				// audit-*: the same universes searched WITHOUT canonical-state de-duplication to a smaller
 				// depth; a violation key that only shows up there would mean the canonical form merges
 				// states with different futures.
-				l = []e{{"handler i=0 in=3", 12}, {"digest i=4 in=0", 8}, {"mixed i=3 in=2", 9}, {"race i=5 in=0", 10}, {"names i=5 in=0", 10}, {"siblings i=5 in=0", 10},
-					{"audit-race i=3 in=0", 5}, {"audit-names i=3 in=0", 4}, {"audit-handler i=0 in=2", 5}}
+				l = []e{{"digest i=4 in=0", 8}, {"mixed i=3 in=2", 9}, {"typedh i=0 in=3", 8}, {"typed i=4 in=0", 8}, {"race i=5 in=0", 10}, {"names i=5 in=0", 10}, {"siblings i=5 in=0", 10},
+					{"audit-race i=3 in=0", 5}, {"audit-names i=3 in=0", 4}, {"audit-handler i=0 in=2", 5},
+					{"handler i=0 in=3", 12}} // biggest last: it gets whatever budget the others left
 			}
 			var c []explore.Config
 			for _, x := range l {
@@ -968,7 +980,7 @@ func main() {
 			"the harness timer has time.AfterFunc semantics: cancel is effective only until the timer has fired; a fired timer's callback may run arbitrarily later (goroutine blocked on pitLock)",
 			"equal canonical state (reachable PIT/FIB tries, PIT-node chains captured by live timers and pending Interests, timer deadlines and Interest deadlines relative to now saturated at 'due', per-Interest results, pending handler invocations) implies equal futures",
 			"a Nack for name N may (not must) resolve pending Interests whose name without the implicit-digest component is N; the property is silent on whether a Nack must be delivered",
-			"finite universes: names /a,/a/b,/a/b/c (+/a/x for incoming Interests), lifetimes 10/20 ms, at most 3 expressed Interests and 2 incoming Interests per history",
+			"finite universes: names /a,/a/b,/a/b/c,/a/c (+/x Data; prefixes down to /a/b/c/d and /a/x,/a/b/c/x for incoming Interests; /a/seg=1,/a/v=1,/a/%01 for component types), lifetimes 10/20 ms, at most 4 (quick) / 5 (thorough) expressed Interests and 2/3 incoming Interests per history",
 		},
 	})
 }
